@@ -2,7 +2,7 @@
 # seedmatrix.sh [ids...] : for every seeded change apply it to /repo, run all 18 quick checks, undo it.
 # Writes /verif/seeded/matrix/<id>.txt (one line per check: "<check> <exit> <violation lines>").
 cd /verif
-ids="$@"; [ -z "$ids" ] && ids=$(ls seeded | grep '^C[0-9][0-9]-[0-9]$')
+ids="$@"; [ -z "$ids" ] && ids=$(ls seeded | grep '^C[0-9][0-9]-[0-9a-z]$')
 mkdir -p seeded/matrix
 if [ -n "$(git -C /repo status --porcelain --untracked-files=no)" ]; then echo "/repo is not clean"; exit 3; fi
 trap 'git -C /repo checkout -- . ; (cd /verif/engine && cargo build --release --offline 2>/dev/null); echo "[repo restored, engine rebuilt]"' EXIT
